@@ -247,6 +247,7 @@ class Call2Mixin:
       self.path.ctx = f'assumed postcondition of {c.short}: {e}'
       self.assume(self.spec(e, env2, old))
     self.call_log.append((c.short, res))
+    self.call_args_log.append((c.short, dict(env)))
     if 'return' in c.cond_tests and not self.spec_mode:
       self.note_cond_test(c.cond_tests['return'])
     if gen_iter is not None:
@@ -514,6 +515,16 @@ class Call2Mixin:
         return r
     raise Unsupported(f'no call of {name} on this path')
 
+  def sf_last_arg(self, node, env):
+    """last_arg('callee', 'param'): the value bound to that parameter at the last contract call of the callee."""
+    name, param = self.ev(node.args[0], env).s, self.ev(node.args[1], env).s
+    for n, e in reversed(self.call_args_log):
+      if n.endswith(name):
+        if param not in e:
+          raise Unsupported(f'{name} has no parameter {param}')
+        return e[param]
+    raise Unsupported(f'no call of {name} on this path')
+
   def sf_timed_out(self, node, env):
     g = self.ghost.get('__timed_out__')
     return g if g is not None else VBool(False)
@@ -652,7 +663,7 @@ def _internal(clause, c=None):
 def _internal0(clause):
   """Clauses about the callee's own execution trace (ghost call counters, time-out flag) are proved
   for the callee but are not facts about the caller's state: they are not assumed at call sites."""
-  return any(tok in clause for tok in ('ncalls(', 'timed_out(', 'last_result(', 'local('))
+  return any(tok in clause for tok in ('ncalls(', 'timed_out(', 'last_result(', 'local(', 'last_arg('))
 
 
 def _walk_fn(node):
